@@ -38,7 +38,8 @@ CycleStart == /\ ~inCycle /\ mode # "stopped"
 Stops(t) == \/ (mode = "pausing" /\ target \in {"any", t})
             \/ mode = "stepping"
             \/ (t \in bps /\ at # t)
-Stmt(t) == /\ inCycle /\ t \in todo /\ mode # "stopped"
+\* (the thread stands in front of the statement it was stopped at: that one is the next to execute)
+Stmt(t) == /\ inCycle /\ t \in todo /\ mode # "stopped" /\ at \in {NoTask, t}
            /\ IF Stops(t)
               THEN /\ mode' = "stopped" /\ at' = t /\ stops' = stops + 1 /\ ended' = 0
                    /\ UNCHANGED <<todo, last, target>>          \* blocked in front of the statement
